@@ -103,6 +103,10 @@ class Prop:
             for g in mut.gen_exhaustive(3, typed=(True,)):
                 for i in range(0, len(g["alts"]), CHUNK):
                     yield dict(kind="alts", univ=g["univ"], setup=g["setup"], alts=g["alts"][i:i + CHUNK], label=g["label"] + "/typed")
+        # metadata histories: the same update payload reaches several nodes, which are then edited one by one
+        for i in range(6 if quick else 40):
+            h = mut.gen_random(rng, rng.randint(10, 20), ntrees=1, ops=["meta"] * 7 + ["add"])
+            yield dict(kind="hist", univ=h["univ"], ops=h["ops"])
         nrand = 30 if quick else 450
         for i in range(nrand):
             n_ops = rng.randint(8, 25 if quick else 40)
@@ -122,7 +126,7 @@ class Prop:
         if desc["kind"] == "alts":
             term, obs, runs = mut.run_group(desc)
             fails = [(r.steps[-1]["op"], f) for r in runs for f in r.fails]
-            changed = sum(1 for r in runs if r.steps[-1]["before"] != r.steps[-1]["after"])
+            changed = sum(1 for r in runs if mut.changed(r.steps[-1]["before"], r.steps[-1]["after"]))
             kinds = {}
             for r in runs:
                 op = r.steps[-1]["op"]
@@ -138,7 +142,7 @@ class Prop:
             r = mut.replay(dict(univ=desc["univ"], ops=desc["ops"]))
             term, obs = mut.coq_case(r), r.obs
             fails = [(r.steps[si]["op"], (si, n, m)) for si, n, m in r.fails]
-            changed = sum(1 for s in r.steps if s["before"] != s["after"])
+            changed = sum(1 for s in r.steps if mut.changed(s["before"], s["after"]))
             errs = sum(1 for s in r.steps if s["res"][0] == 1)
             ntrees = len(r.steps[-1]["after"]) if r.steps else 0
             size = sum(len(t[1]) for t in r.steps[-1]["after"]) if r.steps else 0
@@ -149,7 +153,7 @@ class Prop:
         if fails:
             op, (si, name, msg) = fails[0]
             fail = f"{name}: {msg} [op {op[0]}]"
-        return Case(desc=desc, coq_input=term, impl_obs=obs, oracle_fail=fail, nontrivial=nontrivial,
+        return Case(desc=desc, coq_input=term, impl_obs=mut.safe_obs(obs), oracle_fail=fail, nontrivial=nontrivial,
                     key=H.digest([desc["univ"], desc.get("setup"), desc.get("alts"), desc.get("ops")]), stats=stats)
 
 
